@@ -870,6 +870,14 @@ def ob_zoom_block_r(ctx, res):
         res.ok(arm, "zoom record (%s arm): u32 x4, f32 x4 -> like-named ZoomRecord/Summary fields" % en)
 
 
+class _IfView(dict):
+    """an `if` seen with its branches in (data present, no data) order whatever the test's polarity"""
+    def __init__(self, node, then, els):
+        super().__init__(node)
+        self["then"], self["else"] = then, els
+        self.node = node
+
+
 def ob_summary_r(ctx, res):
     texts = []
     for file, impl in ((RW, "BigWigRead"), (RB, "BigBedRead")):
@@ -888,19 +896,45 @@ def ob_summary_r(ctx, res):
         if len(sk) != 2 or "total_summary_offset" not in so[0] or "full_data_offset" not in so[1]:
             res.fail("summaryR/%s/seeks" % impl, fn, "summary must be read at total_summary_offset and the count at full_data_offset; seeks: %s" % so)
             continue
-        ifs = [n for n in walk_no_nested_fn(fn.body) if n.k == "if" and "!= 0" in up(n["cond"])]
-        if len(ifs) != 1 or "total_summary_offset" not in origin(fn, strip(ifs[0]["cond"])["l"]) or ifs[0].get("else") is None:
-            res.fail("summaryR/%s/v1" % impl, fn, "a zero summary offset (version 1 files) must yield zeros instead of reading at offset 0")
+        from ..astq import upn
+        ifs = []
+        for n in walk_no_nested_fn(fn.body):
+            if n.k != "if" or n.get("else") is None or strip(n["cond"]).k != "binary":
+                continue
+            c = strip(n["cond"])
+            sides = [strip_cast(c["l"]), strip_cast(c["r"])]
+            zero = [x for x in sides if up(x) == "0"]
+            other = [x for x in sides if up(x) != "0"]
+            if c["op"] in ("!=", "==", ">") and len(zero) == 1 and len(other) == 1 and "total_summary_offset" in origin(fn, other[0]):
+                if c["op"] == ">" and sides[0] is not other[0]:
+                    continue
+                ifs.append((n, n["then"], n["else"]) if c["op"] in ("!=", ">") else (n, n["else"], n["then"]))
+        if len(ifs) != 1:
+            if not any("total_summary_offset" in up(n["cond"]) for n in walk_no_nested_fn(fn.body) if n.k in ("if", "match") and n.get("cond") is not None):
+                res.fail("summaryR/%s/v1" % impl, fn, "a zero summary offset (version 1 files) must yield zeros instead of reading at offset 0")
+            else:
+                res.undecided("summaryR/%s/v1" % impl, fn, "the test of the summary offset against 0 was not recognised")
             continue
+        ifn, read_arm, zero_arm = ifs[0]
         lits = [n for n in walk_no_nested_fn(fn.body) if n.k == "struct" and n["path"].endswith("Summary")]
-        st = stmt_of(ifs[0])
+        st = stmt_of(ifn)
         names = [up(e) for e in st["pat"]["elems"]] if st is not None and st.k == "let" and st["pat"].k == "p_tuple" else None
-        if len(lits) != 1 or names != ["bases_covered", "min_val", "max_val", "sum", "sum_squares"]:
-            res.fail("summaryR/%s/bind" % impl, fn, "summary tuple must bind (bases_covered,min_val,max_val,sum,sum_squares) in file order")
+        if len(lits) != 1 or names is None or len(names) != 5:
+            res.undecided("summaryR/%s/bind" % impl, fn, "the five statistics are not bound by one `let (a, b, c, d, e) = if offset != 0 { read } else { zeros }`")
             continue
-        if not all(x.get("shorthand") or up(strip(x["e"])) == x["name"] for x in lits[0]["fields"]):
-            res.fail("summaryR/%s/struct" % impl, lits[0], "Summary fields must be fed from the like-named values")
+        want = ["bases_covered", "min_val", "max_val", "sum", "sum_squares"]
+        fields = {x["name"]: x for x in lits[0]["fields"]}
+        bad = None
+        for i, fname in enumerate(want):
+            x = fields.get(fname)
+            src = fname if x is None or x.get("shorthand") or x.get("e") is None else up(strip(x["e"]))
+            if src != names[i]:
+                bad = (fname, src, names[i])
+        if bad:
+            res.fail("summaryR/%s/struct" % impl, lits[0], "Summary.%s is fed from `%s`; the value read in that position of the file is `%s`" % bad)
             continue
+        ifs = [ifn]
+        ifs[0] = _IfView(ifn, read_arm, zero_arm)
         # zeros for version-1 files: every element of the else tuple is a zero literal
         el = strip(ifs[0]["else"])
         while el.k == "block" and len(el["stmts"]) == 1:
@@ -909,7 +943,7 @@ def ob_summary_r(ctx, res):
                 continue
             break
         if el.k != "tuple" or [up(strip(e)) for e in el["elems"]] not in (["0", "0.0", "0.0", "0.0", "0.0"], ["0u64", "0.0", "0.0", "0.0", "0.0"], ["0", "0f64", "0f64", "0f64", "0f64"]):
-            res.fail("summaryR/%s/v1-zeros" % impl, ifs[0], "with no summary in the file every statistic must be zero; got `%s`" % up(el))
+            res.fail("summaryR/%s/v1-zeros" % impl, ifs[0].node, "with no summary in the file every statistic must be zero; got `%s`" % up(el))
             continue
         # total_items: the u64 read after the seek to full_data_offset
         ti = [x for x in lits[0]["fields"] if x["name"] == "total_items"]
